@@ -7,15 +7,19 @@ from ..facts import AnchorMissing
 from ..typestate import Interp
 from . import C10
 
-LEVEL = ("decides the plumbing a proof depends on: every reason that is used is also logged (P1); the "
-         "conflicting inference and the learned nogood are logged, unit nogoods are indexed under the "
-         "negated predicate (P2/P3); every path that leaves the solver with a recorded root conflict "
-         "has logged the empty nogood, and a posting function never returns Ok while a root conflict is "
-         "recorded (P4, typestate with a 'proof completed' bit); proof-literal code tables (P5); both "
-         "conclusions write the literal definitions (P6); a map that is only filled when inferences are "
-         "logged is only consulted then (P7); the trail position at which a composite predicate became "
-         "true combines both bound updates (P8). Does not decide that a logged inference follows from "
-         "its constraint or that a nogood is derivable — that needs a proof checker and runs")
+LEVEL = ('decides the plumbing a proof depends on: every reason that is used is also logged (P1); the '
+         'conflicting inference and the learned nogood are logged, unit nogoods are indexed under the '
+         'negated predicate (P2/P3); every path that leaves the solver with a recorded root conflict '
+         'has logged the empty nogood, and a posting function never returns Ok while a root conflict '
+         "is recorded (P4, typestate with a 'proof completed' bit); proof-literal code tables (P5); "
+         'both conclusions write the literal definitions (P6); a map that is only filled when '
+         'inferences are logged is only consulted then (P7); the trail position at which a composite '
+         'predicate became true combines both bound updates (P8). the polarity TABLE of predicates '
+         'over reification literals, decided on the domain {0,1} (P9); the premises handed to '
+         'log_inference are the complete explanation, with no selecting adaptor in between (P10); a '
+         'tagged batch of root propagations starts at a trail length read after the previous '
+         'propagator finished (P11). Does not decide that a logged inference follows from its '
+         'constraint or that a nogood is derivable — that needs a proof checker and runs')
 TECHNIQUE = "static analysis: must-pass, typestate with a proof-completed bit, table recovery, populate/lookup guard agreement over rustc MIR"
 
 PROOF_DONE = 4     # bit of the X component: complete_proof / finalize_proof + empty nogood logged
